@@ -328,6 +328,64 @@ IR_VERSIONS = {9: [3, 4, 5, 6, 7, 8, 9], 10: [10], 11: [11, 12, 13]}
 # --------------------------------------------------------------------------------------------
 # concretizer
 # --------------------------------------------------------------------------------------------
+# --------------------------------------------------------------------------------------------
+# spelling of the value names: the specification treats names up to renaming (a, b, c); the
+# concrete spelling rotates, and some spellings are shaped like the names the library generates
+# itself for unnamed values and nodes (val_<n>, node_<op>_<n>)
+# --------------------------------------------------------------------------------------------
+SPELLINGS = [
+    None,
+    {"a": "val_0", "b": "val_1", "c": "val_2"},
+    {"a": "val_1", "b": "val_0", "c": "v"},
+    {"a": "x", "b": "val_0", "c": "node_Op_0"},
+]
+UNSPELL: dict = {}      # inverse of the spelling of the proto being judged (set by Concretizer.model)
+
+
+def spelling_of(salt: int):
+    return SPELLINGS[(salt // 5) % len(SPELLINGS)]
+
+
+def _sp(table, name: str) -> str:
+    if name in table:
+        return table[name]
+    if "/" in name:                       # value_info of a function value: "<domain>::<function>/<value>"
+        head, tail = name.rsplit("/", 1)
+        if tail in table:
+            return head + "/" + table[tail]
+    return name
+
+
+def respell(msg, table) -> None:
+    """Rename, in place and consistently, every field of the proto that holds the name of a value."""
+    if not table:
+        return
+    kind = type(msg).__name__
+    if kind in ("ValueInfoProto", "TensorProto"):
+        if msg.name:
+            msg.name = _sp(table, msg.name)
+    if kind in ("NodeProto", "FunctionProto"):
+        for fld in (msg.input, msg.output):
+            new = [_sp(table, x) for x in fld]
+            del fld[:]
+            fld.extend(new)
+    if kind in ("TensorAnnotation", "ShardingSpecProto"):
+        if msg.tensor_name:
+            msg.tensor_name = _sp(table, msg.tensor_name)
+    if kind == "TensorAnnotation":
+        for e in msg.quant_parameter_tensor_names:
+            e.value = _sp(table, e.value)
+    for fd, val in msg.ListFields():
+        if fd.type != fd.TYPE_MESSAGE:
+            continue
+        if hasattr(val, "ListFields"):
+            respell(val, table)
+        else:                       # repeated composite field (map fields have scalar values here)
+            for x in val:
+                if hasattr(x, "ListFields"):
+                    respell(x, table)
+
+
 class Concretizer:
     """Renders compact explicit abstract protos.  One instance per enumerated proto (salt)."""
 
@@ -572,6 +630,10 @@ class Concretizer:
         for f, eg in enumerate(E["gs"], start=1):
             if eg["kind"] == "func":
                 mp.functions.add().CopyFrom(self.function(E, f))
+        table = spelling_of(self.salt)
+        respell(mp, table)
+        UNSPELL.clear()
+        UNSPELL.update({v: k for k, v in (table or {}).items()})
         return mp
 
 
